@@ -558,6 +558,64 @@ func runC16(c *Ctx) {
 		c.Model("limitname", fmt.Sprintf("limitname %d %s", max, hx(name)), "ok "+hx(got), map[string]any{"name": name, "limit": max})
 	}
 
+	// ---- K: the order of the nodes of a migrated legacy flow (entry first, the others by height, stably) ---------------
+	for i := 0; i < c.N(400, 20000); i++ {
+		k := r.Range(1, 7)
+		type ln struct {
+			id, y int
+			rule  bool
+		}
+		var ns []ln
+		for j := 0; j < k; j++ {
+			ns = append(ns, ln{j + 1, Pick(r, []int{0, 10, 50, 50, 200, 200, 400, 1000}), false})
+		}
+		nAct := r.Range(0, k+1) // the first nAct are action sets, the others rule sets (listed after them)
+		for j := nAct; j < k; j++ {
+			ns[j].rule = true
+		}
+		entry := Pick(r, ns).id
+		if r.Chance(5) {
+			entry = 99 // a flow whose entry names no node
+		}
+		uu := func(id int) string { return fmt.Sprintf("a1b2c3d4-0000-4000-8000-%012d", id) }
+		var as, rs, enc []string
+		for _, n := range ns {
+			enc = append(enc, fmt.Sprintf("%d:%d", n.id, n.y))
+			if n.rule {
+				rs = append(rs, fmt.Sprintf(`{"uuid": %q, "x": 100, "y": %d, "label": "R", "operand": "@step.value", "ruleset_type": "wait_message", "config": {}, "rules": [{"uuid": %q, "category": {"eng": "All"}, "destination": null, "destination_type": null, "test": {"type": "true"}}]}`,
+					uu(n.id), n.y, uu(1000+n.id)))
+			} else {
+				as = append(as, fmt.Sprintf(`{"uuid": %q, "x": 100, "y": %d, "destination": null, "exit_uuid": %q, "actions": [{"type": "reply", "uuid": %q, "msg": {"eng": "hi"}}]}`, uu(n.id), n.y, uu(2000+n.id), uu(3000+n.id)))
+			}
+		}
+		def := fmt.Sprintf(`{"base_language": "eng", "entry": %q, "flow_type": "F", "action_sets": [%s], "rule_sets": [%s], "metadata": {"uuid": "50c3706e-fedb-42c0-8eab-dda3335714b7", "name": "Order"}}`,
+			uu(entry), strings.Join(as, ","), strings.Join(rs, ","))
+		desc := map[string]any{"legacy": json.RawMessage(def)}
+		var out []byte
+		var err error
+		if c.Guard("K-legacyorder", "panic:legacy-migrate", desc, func() { out, err = legacy.MigrateDefinition([]byte(def), "https://example.com/") }) {
+			continue
+		}
+		exp := "err"
+		if err == nil {
+			var res struct {
+				Nodes []struct {
+					UUID string `json:"uuid"`
+				} `json:"nodes"`
+			}
+			json.Unmarshal(out, &res)
+			var ids []string
+			for _, n := range res.Nodes {
+				var id int
+				fmt.Sscanf(n.UUID[len(n.UUID)-12:], "%d", &id)
+				ids = append(ids, fmt.Sprint(id))
+			}
+			exp = "ok " + strings.Join(ids, ",")
+		}
+		c.Eval(fmt.Sprintf("legacyorder|%d|%d|%v", k, nAct, entry == ns[0].id))
+		c.Model("legacyorder", fmt.Sprintf("legacyorder %d %s", entry, strings.Join(enc, ",")), exp, desc)
+	}
+
 	// ---- (f) anything else is rejected with an error, never a panic -------------------------------------------------
 	var seeds [][]byte
 	for _, d := range defs {
